@@ -4,6 +4,8 @@ import EaselModel.Getopts.WfCheck
 import EaselModel.Getopts.Alloc
 import EaselModel.Getopts.Help
 import EaselModel.Getopts.Round
+import EaselModel.Getopts.RealRound
+import EaselModel.Getopts.DumpText
 /-! Line-protocol driver for the C14 model (same ops as harness/h_getopts.c). -/
 open EaselModel EaselModel.Proto EaselModel.Getopts
 
@@ -101,6 +103,9 @@ def step (s : S) (line : String) : S × String :=
       | some .exitHelp => (s, "exit0 help")
       | some .exitNargs => (s, "exit1 nargs")
       | some (.returned g) => (s, "returned argn=" ++ toString (argNumber g)))
+  | "realrange" :: _ =>
+    let v := (field ws "v").getD []
+    if realArgAccepted v (field ws "r") then (s, "ok bits=" ++ hex16 (atofBits v)) else (s, "esyntax msg")
   | "atof" :: _ =>
     let v := (field ws "s").getD []
     (s, "isreal=" ++ b01 (isReal v) ++ " bits=" ++ hex16 (atofBits v))
@@ -145,6 +150,10 @@ def step (s : S) (line : String) : S × String :=
         (match displayHelp rows ((argNat? ws "grp").getD 0) ((argNat? ws "indent").getD 0) ((argNat? ws "width").getD 80) with
           | some lines => (s, "ok " ++ hexOrDash (bytesOfStr (lines.flatMap (fun l => l ++ ['\n']))))
           | none => (s, "einval -"))
+      | "dumptext" =>
+        (match dumpText g.abs with
+          | some t => (s, "ok " ++ hexOrDash (bytesOfStr t))
+          | none => ({ s with dead := true }, "fault"))
       | "spoofcmd" =>
         (match spoofCmdline g.abs with
           | some t => (s, "ok " ++ hexOrDash (bytesOfStr t))
